@@ -47,7 +47,7 @@ impl Scheduler for Sched {
                 let c = cur.map(usize::from);
                 let fair: Vec<usize> = { let v: Vec<usize> = ids.iter().copied().filter(|x| !(yielding && Some(*x) == c)).collect(); if v.is_empty() { ids.clone() } else { v } };
                 if self.pos < k { let w = base.get(self.pos).copied(); self.pos += 1; match w { Some(w) if ids.contains(&w) => w, _ => usize::MAX } }
-                else if ids.contains(&task) && !self.injected_done { task }
+                else if ids.contains(&task) && !self.injected_done && !(yielding && c == Some(task)) { task }      // until it blocks, parks or spins
                 else {
                     self.injected_done = true;
                     let w = base.get(self.pos).copied(); self.pos += 1;
